@@ -28,19 +28,25 @@ type FCRound struct {
 	XTracked bool      `json:"x_tracked,omitempty"`
 	G        []float64 `json:"g"`
 	Row      int       `json:"row"` // row changed for the row-independence variant
+	// after the gradient check: Update = both parameters are updated through the pointers by
+	// SGD (instead of only being reset); FreezeW / FreezeB = the parameter is then made a
+	// fresh UNtracked leaf (ResetGradContext(false)) and must receive no gradient next round
+	Update  bool `json:"update,omitempty"`
+	FreezeW bool `json:"freeze_w,omitempty"`
+	FreezeB bool `json:"freeze_b,omitempty"`
 }
 
 type C16Case struct {
 	F      int       `json:"f"`
 	O      int       `json:"o"`
-	Init   int       `json:"init"` // 0 default initializers, 1 custom Full, 2 custom Uniform / Normal
+	Init   int       `json:"init"` // 0 default initializers, 1 custom Full, 2 custom Uniform / Normal, 3 one Full object for both
 	Rounds []FCRound `json:"rounds"`
 }
 
 func init() { register("C16/fc", checkC16) }
 
 func genC16(t *rapid.T) C16Case {
-	c := C16Case{F: rapid.IntRange(1, 5).Draw(t, "f"), O: rapid.IntRange(1, 5).Draw(t, "o"), Init: rapid.IntRange(0, 2).Draw(t, "init")}
+	c := C16Case{F: rapid.IntRange(1, 5).Draw(t, "f"), O: rapid.IntRange(1, 5).Draw(t, "o"), Init: rapid.IntRange(0, 3).Draw(t, "init")}
 	nr := rapid.IntRange(1, 4).Draw(t, "rounds")
 	for r := 0; r < nr; r++ {
 		var rd FCRound
@@ -59,6 +65,9 @@ func genC16(t *rapid.T) C16Case {
 		rd.XTracked = rapid.Bool().Draw(t, "xtracked")
 		rd.G = prog.DrawValsMode(t, rd.Batch*c.O, 4+r, "std")
 		rd.Row = rapid.IntRange(0, rd.Batch-1).Draw(t, "row")
+		rd.Update = rapid.IntRange(0, 2).Draw(t, "update") == 0
+		rd.FreezeW = rapid.IntRange(0, 5).Draw(t, "freezew") == 0
+		rd.FreezeB = rapid.IntRange(0, 5).Draw(t, "freezeb") == 0
 		c.Rounds = append(c.Rounds, rd)
 	}
 	return c
@@ -75,6 +84,9 @@ func checkC16(c C16Case) *Failure {
 			"Weight": initializers.NewFull(&initializers.FullConfig{Value: 1.5}),
 			"Bias":   initializers.NewFull(&initializers.FullConfig{Value: -0.25}),
 		}
+	case 3:
+		f := initializers.NewFull(&initializers.FullConfig{Value: 0.75})
+		conf.Initializers = map[string]layers.Initializer{"Weight": f, "Bias": f}
 	case 2:
 		u, err := initializers.NewUniform(&initializers.UniformConfig{Lower: -1, Upper: 2})
 		if err != nil {
@@ -98,6 +110,8 @@ func checkC16(c C16Case) *Failure {
 		return failf("FC parameters are not reported as trainable")
 	}
 	sawBatch1, sawBatchN, replaced := false, false, 0
+	wTracked, bTracked := true, true // initializers return tracked tensors
+	opt := optimizers.NewSGD(&optimizers.SGDConfig{LearningRate: 0.125})
 	for ri, rd := range c.Rounds {
 		if rd.Batch < 1 || len(rd.X) != rd.Batch*c.F || len(rd.G) != rd.Batch*c.O || rd.Row < 0 || rd.Row >= rd.Batch {
 			return nil
@@ -111,6 +125,7 @@ func checkC16(c C16Case) *Failure {
 				return nil
 			}
 			*ws[0].Value = lib.MustNew([]int{c.O}, rd.NewW, true)
+			wTracked = true
 			replaced++
 		}
 		if rd.NewB != nil {
@@ -118,6 +133,7 @@ func checkC16(c C16Case) *Failure {
 				return nil
 			}
 			*ws[1].Value = lib.MustNew([]int{c.O}, rd.NewB, true)
+			bTracked = true
 			replaced++
 		}
 		// the parameters the layer must be using now, read through the same pointers (no extra
@@ -208,11 +224,11 @@ func checkC16(c C16Case) *Failure {
 			shape   []int
 			tracked bool
 		}
-		for _, tg := range []target{{"W", wT, 0, c.O, []int{c.O}, true}, {"B", bT, c.O, c.O, []int{c.O}, true}, {"x", x, 2 * c.O, rd.Batch * c.F, []int{rd.Batch, c.F}, rd.XTracked}} {
+		for _, tg := range []target{{"W", wT, 0, c.O, []int{c.O}, wTracked}, {"B", bT, c.O, c.O, []int{c.O}, bTracked}, {"x", x, 2 * c.O, rd.Batch * c.F, []int{rd.Batch, c.F}, rd.XTracked}} {
 			g := tg.t.Gradient()
 			if !tg.tracked {
 				if g != nil {
-					return failf("round %d: untracked input received a gradient", ri)
+					return failf("round %d: untracked %s received a gradient", ri, tg.name)
 				}
 				continue
 			}
@@ -257,9 +273,22 @@ func checkC16(c C16Case) *Failure {
 			}
 			return failf("round %d (batch %d): gradient of %s [%d] = %v, derivative of the affine formula = %v", ri, rd.Batch, tg.name, bad, gv[bad], w[bad])
 		}
-		// make the parameters fresh leaves again, as a training loop would
-		wT.ResetGradContext(true)
-		bT.ResetGradContext(true)
+		if wT == bT {
+			return failf("round %d: Weight and Bias are one and the same tensor object", ri)
+		}
+		// optionally an optimizer step through the pointers, then make the parameters fresh
+		// leaves again as a training loop would - tracked, or frozen (untracked)
+		if rd.Update && wTracked && bTracked {
+			if err := opt.Update(ws[0].Value); err != nil {
+				return failf("round %d: SGD.Update(W) failed: %v", ri, err)
+			}
+			if err := opt.Update(ws[1].Value); err != nil {
+				return failf("round %d: SGD.Update(B) failed: %v", ri, err)
+			}
+		}
+		wTracked, bTracked = !rd.FreezeW, !rd.FreezeB
+		(*ws[0].Value).ResetGradContext(wTracked)
+		(*ws[1].Value).ResetGradContext(bTracked)
 		if rd.Batch == 1 {
 			sawBatch1 = true
 		} else {
@@ -301,6 +330,11 @@ type C17Case struct {
 	NilConf bool         `json:"nil_conf,omitempty"`
 	LR      float64      `json:"lr,omitempty"`
 	Mode    int          `json:"mode,omitempty"`
+	// Second: a second Update of the same (previous) tensor object by the same optimizer
+	// after its gradient changed: 1 = a graph built earlier (w.Scale(3)) is back-propagated
+	// after the first update and accumulates on w; 2 = w is reset, used in a new graph
+	// (w.Scale(2)) and back-propagated again.
+	Second int `json:"second,omitempty"`
 }
 
 func init() { register("C17/sgd", checkC17) }
@@ -334,6 +368,9 @@ func genC17(t *rapid.T) C17Case {
 	if rapid.IntRange(0, 9).Draw(t, "badptr") == 0 {
 		c.Mode = rapid.IntRange(1, 2).Draw(t, "mode")
 	}
+	if rapid.IntRange(0, 2).Draw(t, "second") == 0 {
+		c.Second = rapid.IntRange(1, 2).Draw(t, "secondkind")
+	}
 	return c
 }
 
@@ -350,6 +387,9 @@ func checkC17(c C17Case) *Failure {
 	opt := optimizers.NewSGD(conf)
 	if opt == nil {
 		return failf("NewSGD returned nil")
+	}
+	if conf != nil {
+		conf.LearningRate = 123 // the caller reuses its config struct for the next optimizer
 	}
 	switch c.Mode {
 	case 1:
@@ -380,6 +420,10 @@ func checkC17(c C17Case) *Failure {
 	lv, err := prog.RunLib(c.P)
 	if err != nil {
 		return failf("program rejected: %v", err)
+	}
+	var side tensor.Tensor
+	if c.Second == 1 {
+		side = lv[0].Scale(3) // a second graph over the weight, built before any back-propagation
 	}
 	if err := tensor.BackPropagate(lv[len(lv)-1]); err != nil {
 		return failf("BackPropagate returned error: %v", err)
@@ -436,6 +480,54 @@ func checkC17(c C17Case) *Failure {
 		if before.GV[k] != before.GV[0] {
 			uniform = false
 		}
+	}
+	if c.Second != 0 && c.P.Leaves[0].Tracked {
+		// the previous tensor object gets a different gradient and is updated again
+		var add float64
+		switch c.Second {
+		case 1:
+			if err := tensor.BackPropagate(side); err != nil {
+				return failf("BackPropagate of the second graph returned error: %v", err)
+			}
+			add = 3
+		default:
+			old.ResetGradContext(true)
+			if err := tensor.BackPropagate(old.Scale(2)); err != nil {
+				return failf("BackPropagate after reset returned error: %v", err)
+			}
+		}
+		g := old.Gradient()
+		if g == nil {
+			return failf("previous weight has no gradient after the second back-propagation")
+		}
+		_, g2, err := lib.Read(g)
+		if err != nil {
+			return failf("gradient unreadable: %v", err)
+		}
+		for k := range g2 {
+			want := 2.0
+			if c.Second == 1 {
+				want = before.GV[k] + add
+			}
+			if math.Abs(g2[k]-want) > 1e-9*math.Max(1, math.Abs(want)) {
+				return failf("second gradient [%d] = %v, expected %v", k, g2[k], want)
+			}
+		}
+		w2 := old
+		if err := opt.Update(&w2); err != nil {
+			return failf("second Update of the same tensor object failed: %v", err)
+		}
+		_, n2, err := lib.Read(w2)
+		if err != nil || len(n2) != len(g2) {
+			return failf("result of the second Update unreadable: %v", err)
+		}
+		for k := range n2 {
+			want := before.V[k] - lr*g2[k]
+			if !lib.SameNum(n2[k], want) && math.Abs(n2[k]-want) > 1e-12*math.Max(math.Abs(before.V[k]), math.Abs(lr*g2[k])) {
+				return failf("second Update of the same tensor object: [%d] = %v, w - lr*g = %v - %v*%v = %v (the gradient changed since the first Update)", k, n2[k], before.V[k], lr, g2[k], want)
+			}
+		}
+		evid.Class(fmt.Sprintf("C17.second_update_kind=%d", c.Second))
 	}
 	evid.Eval()
 	evid.Class(fmt.Sprintf("C17.rank=%d", len(ns)))
